@@ -192,9 +192,13 @@ def link(rep, c, sfx):
 
 def end_index_helpers(c):
     """Methods of Pair that return the end_token_index of the Start token at self.start."""
-    out = set()
+    out = {}
     for b in c.bodies:
-        if b.get("impl_self") != PAIR or b.get("output") != "usize" or len(b["inputs"]) != 1:
+        if b.get("output") != "usize" or b.get("body") is None:
+            continue
+        method = b.get("impl_self") == PAIR and len(b["inputs"]) == 1
+        free = b.get("impl_self") is None and b["path"].startswith("pest::iterators::pair::") and len(b["inputs"]) == 2
+        if not (method or free):
             continue
         ms = [n for n in walk(b["body"]) if kind(n) == "Match" and n.get("src") == "match"]
         if len(ms) != 1:
@@ -203,14 +207,22 @@ def end_index_helpers(c):
         if kind(scr) != "Index":
             continue
         idx = peel(scr["idx"])
-        if not (kind(idx) == "Field" and idx["name"] == "start"):
-            continue
+        start_param = None
+        if method:
+            if not (kind(idx) == "Field" and idx["name"] == "start"):
+                continue
+        else:
+            # `fn end_token_of(queue, start) -> usize { match queue[start] { Start { end_token_index, .. } => .. } }`
+            pids = [p.get("id") for p in b["params"]]
+            if hirq.local_id(idx) not in pids:
+                continue
+            start_param = pids.index(hirq.local_id(idx))
         for arm in ms[0]["arms"]:
             if QT + "::Start" in hirq.pat_variants(arm["pat"]):
                 binds = {f["name"]: f["pat"] for f in arm["pat"].get("fields", [])}
                 b0 = binds.get("end_token_index")
                 if b0 is not None and hirq.local_id(arm["body"]) in [x[0] for x in hirq.pat_bindings(b0)]:
-                    out.add(b["path"])
+                    out[b["path"]] = start_param
     return out
 
 
@@ -224,6 +236,13 @@ def sym(n, lets, helpers, depth=0):
         return str(n.get("v"))
     if k == "Binary" and n["op"] == "+" and hirq.lit_value(n["r"]) == 1:
         return sym(n["l"], lets, helpers, depth + 1) + "+1"
+    if k == "Call" and isinstance(callee(n), str) and callee(n) in helpers and helpers[callee(n)] is not None:
+        a = peel(n["args"][helpers[callee(n)]]) if helpers[callee(n)] < len(n["args"]) else None
+        if a is not None and kind(a) == "Field" and a["name"] == "start":
+            bty = hirq_strip(a.get("bty", ""))
+            if bty.startswith(PAIR + "<") or bty == PAIR:
+                return "End(%s)" % base_name(a["base"])
+        return "?"
     if k == "MethodCall":
         if n.get("path") in helpers:
             return "End(%s)" % base_name(n["recv"])
